@@ -115,7 +115,27 @@ def reference(cond_src, kwargs, glob):
     return val, dict(RECORD)
 
 
+def run_source(scn):
+    """A scenario given as a whole module source (layout matters): {"source": ..., "call": "f(...)"}."""
+    d = tempfile.mkdtemp(prefix="exprfam")
+    path = os.path.join(d, "layout_%d.py" % abs(hash(scn["source"])))
+    open(path, "w").write(scn["source"])
+    env = {"Guard": Guard, "ident": ident}
+    try:
+        exec(compile(scn["source"], path, "exec"), env)
+        eval(scn["call"], env)
+        return [{"what": "no error was raised for a falsy condition"}]
+    except icontract.ViolationError as e:
+        if scn.get("text") and scn["text"] not in str(e):
+            return [{"what": "the message does not carry the condition text", "message": str(e)[:300]}]
+        return []
+    except BaseException as e:
+        return [{"what": "the violation surfaced as %s instead of ViolationError" % type(e).__name__, "detail": str(e)[:300]}]
+
+
 def run(scn):
+    if "source" in scn:
+        return run_source(scn)
     glob = {"boom": boom, "ident": ident, "Guard": Guard, "len": len}
     glob.update({k: eval(v, dict(glob)) for k, v in scn.get("globals", {}).items()})
     kwargs = {k: eval(v, dict(glob)) for k, v in scn["args"].items()}
@@ -217,6 +237,15 @@ def scenarios():
     yield "many arguments sorted", S("lambda zeta, alpha, mid: zeta + alpha + mid > 100", {"zeta": "1", "alpha": "2", "mid": "3"})
     yield "large value bounded", S("lambda xs: len(xs) < 3", {"xs": "list(range(1000))"})
     yield "unary and binary operators", S("lambda a, b: -a + (~b) * 2 ** 2 - (a // 1) % 7 > 1000", {"a": "3", "b": "4"})
+    yield "KNOWN comprehension body with an empty iterable", S("lambda xs, g: len([g.attr for x in xs]) > 5", {"xs": "[]", "g": "Guard('g')"})
+    yield "KNOWN decorator continuation line starting with @", dict(
+        source="import icontract\nclass M:\n    def __init__(self, v):\n        self.v = v\n    def __matmul__(self, o):\n        return M(self.v * o.v)\n    def __gt__(self, o):\n        return self.v > o\n"
+               "@icontract.require(lambda x, y:\n    x\n    @y > 0)\ndef f(x, y):\n    return 1\n", call="f(M(-1), M(2))", text="@y > 0")
+    yield "layout: keyword form, comments, neighbours", dict(
+        source="import icontract\n@icontract.ensure(lambda result: True)\n@icontract.require(  # a comment\n    description='positive',\n    condition=lambda x:\n        x > 0  # trailing\n)\n@icontract.require(lambda x: x < 100)\ndef f(x):\n    return 1\n",
+        call="f(-1)", text="x > 0")
+    yield "layout: nested in a class", dict(
+        source="import icontract\nclass K:\n    class Inner:\n        @icontract.require(\n            lambda self, x:\n            x > 0)\n        def m(self, x):\n            return 1\n", call="K.Inner().m(-1)", text="x > 0")
     yield "is not / in", S("lambda x, xs: x in xs and x is not None and x not in xs", {"x": "2", "xs": "[1, 2]"})
 
 
@@ -228,9 +257,15 @@ def main(argv):
     ap.add_argument("--hints", default="")
     ap.add_argument("--out")
     ap.add_argument("--all", action="store_true")
+    ap.add_argument("--exclude", default="")
+    ap.add_argument("--only", default="")
     a = ap.parse_args(argv)
     res = {"icontract_file": icontract.__file__, "found": False}
     items = list(scenarios())
+    if a.only:
+        items = [t for t in items if t[0] == a.only]
+    ex = [x for x in a.exclude.split("|") if x]
+    items = [t for t in items if t[0] not in ex]
     if a.scenario:
         scn = json.load(open(a.scenario))
         items = [("given", scn.get("program", scn))]
